@@ -61,11 +61,14 @@ def objPairs (j : Json) (k : String) : List (String × Json) :=
   | .ok (.obj kvs) => kvs.toList
   | _ => []
 
-def mkEnv (j : Json) : Except String Env := do
+/-- `lastId` / `firstSite`: what the placeholders "<last>" (loop id) and "<first>" (call site) stand for -/
+def mkEnv (j : Json) (lastId : String := "<last>") (firstSite : String := "<first>") : Except String Env := do
+  let sub (s : String) : String := if s == "<last>" then lastId else if s == "<first>" then firstSite else s
   let faults ← (match j.getObjVal? "faults" with
     | .ok (.arr a) => a.toList.mapM parseFault
     | _ => pure [])
-  let iters := (objPairs j "iters").filterMap (fun (k, v) => v.getNat?.toOption.map (fun n => (k, n)))
+  let faults := faults.map (fun f => { f with site := sub f.site, loop := f.loop.map sub })
+  let iters := (objPairs j "iters").filterMap (fun (k, v) => v.getNat?.toOption.map (fun n => (sub k, n)))
   let dIters := (j.getObjVal? "default_iters" >>= (·.getNat?)).toOption.getD 0
   let conds := (objPairs j "conds").filterMap (fun (k, v) => v.getBool?.toOption.map (fun b => (k, b)))
   let dCond := (j.getObjVal? "default_cond" >>= (·.getBool?)).toOption.getD true
@@ -73,6 +76,14 @@ def mkEnv (j : Json) : Except String Env := do
          iters := fun _ id => ((iters.find? (fun p => p.1 == id)).map (·.2)).getD dIters,
          cond := fun _ c => ((conds.find? (fun p => p.1 == c)).map (·.2)).getD dCond,
          catches := fun _ _ => false }
+
+def firstCallOf : Stmt → Option String
+  | .call s => some s
+  | .seq a _ => firstCallOf a
+  | .tryExcept b _ _ _ => firstCallOf b
+  | .tryFinally b _ => firstCallOf b
+  | .scope _ b => firstCallOf b
+  | _ => none
 
 def evJson : Ev → Json
   | .call s f => Json.mkObj [("ev", "call"), ("site", Json.str s),
@@ -89,17 +100,22 @@ def outStr : Out → String
   | .continued => "continued"
   | .raised e => "raised:" ++ exnStr e
 
-/-- {"op":"exec","fn":name,"loop":id?,…env…} — run the skeleton (or only its loop `id`) from the empty trace -/
+/-- {"op":"exec","fn":name,"loop":id?,…env…} — run the skeleton (or only its loop `id`; "<last>" = the last loop
+    in source order) from the empty trace -/
 def handleExec (j : Json) : Except String Json := do
   let s ← skeleton (← getStr j "fn")
-  let s ← (match (← getOptStr j "loop") with
+  let (s, lastId, firstSite) ← (match (← getOptStr j "loop") with
+    | some "<last>" => match lastLoop s with
+      | some (id, b) => pure (Stmt.loop id b, id, (firstCallOf b).getD "<first>")
+      | none => throw "no loop"
     | some id => match findLoop id s with
-      | some b => pure (Stmt.loop id b)
+      | some b => pure (Stmt.loop id b, id, (firstCallOf b).getD "<first>")
       | none => throw s!"no loop {id}"
-    | none => pure s)
-  let env ← mkEnv j
+    | none => pure (s, ((lastLoop s).map (·.1)).getD "<last>", "<first>"))
+  let env ← mkEnv j lastId firstSite
   let (o, tr) := exec env s []
   pure (Json.mkObj [("out", Json.str (outStr o)), ("trace", Json.arr (tr.reverse.map evJson).toArray),
+                    ("loop", Json.str lastId), ("first", Json.str firstSite),
                     ("mayRaise", Json.mkObj [("exc", toJson (mayRaise s).exc), ("base", toJson (mayRaise s).base)])])
 
 /-- {"op":"resolve","cls":c,"stack":[[fn,site],…]} innermost frame first -/
